@@ -70,3 +70,13 @@ Example C20_ex :
   /\ rasterize [0; 1] [0; 1] [] (VList [1]) 0 false = Err EValue.
 Proof. vm_compute. split; reflexivity. Qed.
 Print Assumptions C20_ex.
+
+(* ---- the vertex-to-bin lookup rasterize uses, as READ FROM THE SOURCE (Gen/Source.v is regenerated
+   from soundevent/arrays/dimensions.py on every run): get_coord_index equals the model's. ---- *)
+From SE Require Gen.Source Gen.SrcArrays.
+From SE Require Import Gen.Prelude Arr.Index Arr.CropExtend.
+
+Theorem C20_src_get_coord_index : forall a v r,
+  Source.get_coord_index a tt v r = get_coord_index (coords a) v r.
+Proof. exact SrcArrays.src_get_coord_index. Qed.
+Print Assumptions C20_src_get_coord_index.
